@@ -10,6 +10,7 @@ pub mod colour;
 pub mod cs;
 pub mod mats;
 pub mod shuffle;
+pub mod own;
 pub mod tables;
 
 use colour::Comp;
@@ -66,6 +67,7 @@ pub fn property() -> Property {
     use tables::VARIANTS;
     index!("conv-table", "all 24 From impls between vector types (kind change keeps order, shrinking drops the tail, growing appends T::zero(), (smaller, scalar) appends the scalar, Rgba::from(Rgb) appends full()), From and Into, 8 atom arrangements each",
         tables::N_CONV * VARIANTS, tables::conv_table);
+    index!("conv-ownership", "shrinking and kind-changing conversions (From / Into / xyz / xy) on Rc elements: the kept elements are the leading source elements moved in order, every discarded trailing element is dropped exactly once (strong count back to 1 while the result is alive), nothing is leaked or duplicated", own::TOTAL, own::conv_ownership);
     index!("swizzle-table", "yx, zyx, wxyz, wzyx, zyxw, xy, xyz, rgb, all with_x/y/z/w setters (incl. the growing Vec2::with_z/with_w, Vec3::with_w), shuffled_argb/bgra/bgr: exactly the named permutation / replacement",
         tables::N_SWZ * VARIANTS, tables::swizzle_table);
     index!("homogeneous-table", "new_point/new_direction/from_point/from_direction (Vec4) and the _2d forms (Vec3) from every argument kind: last coordinate 1 for points, 0 for directions, Vec2 arguments get z = 0, a present last coordinate is replaced",
